@@ -19,6 +19,7 @@ import (
 
 type c02Config struct {
 	NodePos  int   `json:"node_pos"` // the node under test is the proposer of this round
+	Strategy string `json:"strategy"` // default adversary: echo | nilprecommit | split (see moves)
 	MaxRound int32 `json:"max_round"`
 	MaxDev   int   `json:"max_dev"`
 	Eager    bool  `json:"eager_own"`
@@ -198,7 +199,11 @@ func (s *c02Setup) moves(g *dsGlobal) (free *dsEv, devs []dsEv) {
 			add(dsEv{K: dsDeliver, M: int32(id)})
 		}
 	}
-	// default 2/3: echo the node's own vote of the current round, one adversary at a time
+	// default 2/3: the adversaries answer the node's own vote of the current round, one adversary at a time.
+	//   echo:         every adversary repeats the node's prevote and precommit (the node commits in round 0)
+	//   nilprecommit: prevotes are echoed (the node locks), every adversary precommits nil (the node walks the rounds locked)
+	//   split:        prevotes: first adversary echoes, second votes nil, third stays silent (no polka, prevote-wait timeout);
+	//                 precommits: nil from everybody (the node walks the rounds unlocked)
 	for _, t := range []tmproto.SignedMsgType{tmproto.PrevoteType, tmproto.PrecommitType} {
 		own := sum.ownPrevote[rd]
 		if t == tmproto.PrecommitType {
@@ -209,8 +214,21 @@ func (s *c02Setup) moves(g *dsGlobal) (free *dsEv, devs []dsEv) {
 		}
 		for k, a := range s.adv {
 			if !sum.voted[fmt.Sprintf("%d/%d", rd, t)][k] {
-				if id, ok := s.voteMsg(a, rd, t, own); ok {
-					add(dsEv{K: dsDeliver, M: int32(id)})
+				val := own
+				switch {
+				case s.c.Strategy == "nilprecommit" && t == tmproto.PrecommitType:
+					val = "nil"
+				case s.c.Strategy == "split" && t == tmproto.PrecommitType:
+					val = "nil"
+				case s.c.Strategy == "split" && t == tmproto.PrevoteType && k == 1:
+					val = "nil"
+				case s.c.Strategy == "split" && t == tmproto.PrevoteType && k == 2:
+					val = "" // silent
+				}
+				if val != "" {
+					if id, ok := s.voteMsg(a, rd, t, val); ok {
+						add(dsEv{K: dsDeliver, M: int32(id)})
+					}
 				}
 				break
 			}
@@ -310,8 +328,7 @@ func (s *c02Setup) monitor(n *dsNode) (key, what string) {
 		round int32
 	}
 	first := map[slot]*dsMsg{}
-	var lastPrecommit *dsMsg // most recent non-nil precommit before the newest message
-	for i, id := range n.signed {
+	for _, id := range n.signed {
 		m := s.w.msg(id)
 		sl := slot{m.Kind, m.Type, m.Round}
 		if prev, ok := first[sl]; ok && prev.Block != m.Block {
@@ -319,15 +336,6 @@ func (s *c02Setup) monitor(n *dsNode) (key, what string) {
 		} else if !ok {
 			first[sl] = m
 		}
-		if i < len(n.signed)-1 && m.Kind == "vote" && m.Type == tmproto.PrecommitType && m.Block != "nil" {
-			if lastPrecommit == nil || m.Round >= lastPrecommit.Round {
-				lastPrecommit = m
-			}
-		}
-	}
-	m := s.w.msg(n.signed[len(n.signed)-1])
-	if m.Kind != "vote" {
-		return "", ""
 	}
 	total := s.w.state0.Validators.TotalVotingPower()
 	quorumFor := func(rd int32, label string, other bool) bool {
@@ -348,30 +356,44 @@ func (s *c02Setup) monitor(n *dsNode) (key, what string) {
 		}
 		return false
 	}
-	if m.Type == tmproto.PrecommitType && m.Block != "nil" {
-		holds := false
-		for _, b := range []*types.Block{n.cs.LockedBlock, n.cs.ProposalBlock, n.cs.ValidBlock} {
-			if b != nil && s.w.label(b.Hash()) == m.Block {
-				holds = true
+	// judge what THIS event made the node sign (the sets and blocks it holds now are the ones it held when it signed)
+	for idx := n.sigMark; idx < len(n.signed); idx++ {
+		m := s.w.msg(n.signed[idx])
+		if m.Kind != "vote" {
+			continue
+		}
+		var lastPrecommit *dsMsg // most recent non-nil precommit before this message
+		for _, id := range n.signed[:idx] {
+			pm := s.w.msg(id)
+			if pm.Kind == "vote" && pm.Type == tmproto.PrecommitType && pm.Block != "nil" && (lastPrecommit == nil || pm.Round >= lastPrecommit.Round) {
+				lastPrecommit = pm
 			}
 		}
-		if !holds {
-			return "consensus:precommit-without-block", fmt.Sprintf("precommitted %s in round %d without holding the block", m.Block, m.Round)
-		}
-		if !quorumFor(m.Round, m.Block, false) {
-			return "consensus:precommit-without-polka", fmt.Sprintf("precommitted %s in round %d without > 2/3 prevotes for it in that round", m.Block, m.Round)
-		}
-	}
-	if m.Type == tmproto.PrevoteType && lastPrecommit != nil && lastPrecommit.Round < m.Round && m.Block != lastPrecommit.Block {
-		ok := false
-		for rd := lastPrecommit.Round + 1; rd <= m.Round; rd++ {
-			if quorumFor(rd, lastPrecommit.Block, true) {
-				ok = true
+		if m.Type == tmproto.PrecommitType && m.Block != "nil" {
+			holds := false
+			for _, b := range []*types.Block{n.cs.LockedBlock, n.cs.ProposalBlock, n.cs.ValidBlock} {
+				if b != nil && s.w.label(b.Hash()) == m.Block {
+					holds = true
+				}
+			}
+			if !holds {
+				return "consensus:precommit-without-block", fmt.Sprintf("precommitted %s in round %d without holding the block", m.Block, m.Round)
+			}
+			if !quorumFor(m.Round, m.Block, false) {
+				return "consensus:precommit-without-polka", fmt.Sprintf("precommitted %s in round %d without > 2/3 prevotes for it in that round", m.Block, m.Round)
 			}
 		}
-		if !ok {
-			return "consensus:prevote-against-lock", fmt.Sprintf("precommitted %s in round %d, then prevoted %s in round %d without a more recent +2/3 prevote quorum for anything else",
-				lastPrecommit.Block, lastPrecommit.Round, m.Block, m.Round)
+		if m.Type == tmproto.PrevoteType && lastPrecommit != nil && lastPrecommit.Round < m.Round && m.Block != lastPrecommit.Block {
+			ok := false
+			for rd := lastPrecommit.Round + 1; rd <= m.Round; rd++ {
+				if quorumFor(rd, lastPrecommit.Block, true) {
+					ok = true
+				}
+			}
+			if !ok {
+				return "consensus:prevote-against-lock", fmt.Sprintf("precommitted %s in round %d, then prevoted %s in round %d without a more recent +2/3 prevote quorum for anything else",
+					lastPrecommit.Block, lastPrecommit.Round, m.Block, m.Round)
+			}
 		}
 	}
 	return "", ""
@@ -403,7 +425,7 @@ func c02Replay(r *vr.Report, cs c02Case) (keys, whats []string) {
 }
 
 func TestVerifC02(t *testing.T) {
-	r := vr.Start("C02", "votes", 140*time.Second, 22*time.Minute)
+	r := vr.Start("C02", "votes", 170*time.Second, 22*time.Minute)
 	defer r.Finish()
 	r.Rule = "one real consensus.State (power 1 of 4) against three adversarial validators; per configuration (which round the node proposes in) every execution with at most k " +
 		"deviations from the default adversary (proposal for the round, echo of the node's prevote and precommit, pending timeout) is explored; a deviation is any message of the menu " +
@@ -427,12 +449,15 @@ func TestVerifC02(t *testing.T) {
 	}
 	var cfgs []c02Config
 	for pos := 0; pos <= 3; pos++ {
-		cfgs = append(cfgs, c02Config{NodePos: pos, MaxRound: 2, MaxDev: dev, Eager: true})
+		cfgs = append(cfgs, c02Config{NodePos: pos, Strategy: "echo", MaxRound: 2, MaxDev: dev, Eager: true})
+		if pos <= 1 || vr.Thorough() {
+			cfgs = append(cfgs, c02Config{NodePos: pos, Strategy: "nilprecommit", MaxRound: 3, MaxDev: dev, Eager: true})
+			cfgs = append(cfgs, c02Config{NodePos: pos, Strategy: "split", MaxRound: 3, MaxDev: dev, Eager: true})
+		}
 	}
 	if vr.Thorough() {
 		for pos := 0; pos <= 3; pos++ {
-			cfgs = append(cfgs, c02Config{NodePos: pos, MaxRound: 2, MaxDev: dev - 1, Eager: false, Stale: true})
-			cfgs = append(cfgs, c02Config{NodePos: pos, MaxRound: 3, MaxDev: dev - 1, Eager: true})
+			cfgs = append(cfgs, c02Config{NodePos: pos, Strategy: "echo", MaxRound: 2, MaxDev: dev - 1, Eager: false, Stale: true})
 		}
 	}
 	workers := runtime.GOMAXPROCS(0)
